@@ -58,7 +58,7 @@ var _ types.FundraisingHooks = (*Listener)(nil)
 func vsString(vs []types.VestingSchedule) string {
 	var sb strings.Builder
 	for _, v := range vs {
-		fmt.Fprintf(&sb, "(%d,%s)", v.ReleaseTime.UnixNano(), v.Weight.String())
+		fmt.Fprintf(&sb, "(%d,%s)", nsOf(v.ReleaseTime), v.Weight.String())
 	}
 	return sb.String()
 }
@@ -103,7 +103,7 @@ func (l *Listener) call(ctx context.Context, method, args, pre string) error {
 
 func (l *Listener) BeforeFixedPriceAuctionCreated(ctx context.Context, auctioneer string, startPrice sdkmath.LegacyDec, sellingCoin sdk.Coin, payingCoinDenom string, vs []types.VestingSchedule, startTime, endTime time.Time) error {
 	pre := l.newAuctionStored(ctx)
-	return l.call(ctx, "BeforeFixedPriceAuctionCreated", fmt.Sprintf("%s|%s|%s|%s|%s|%d|%d", canonAddr(auctioneer), startPrice, sellingCoin, payingCoinDenom, vsString(vs), startTime.UnixNano(), endTime.UnixNano()), pre)
+	return l.call(ctx, "BeforeFixedPriceAuctionCreated", fmt.Sprintf("%s|%s|%s|%s|%s|%d|%d", canonAddr(auctioneer), startPrice, sellingCoin, payingCoinDenom, vsString(vs), nsOf(startTime), nsOf(endTime)), pre)
 }
 
 func (l *Listener) newAuctionStored(ctx context.Context) string {
@@ -117,17 +117,17 @@ func (l *Listener) newAuctionStored(ctx context.Context) string {
 
 func (l *Listener) AfterFixedPriceAuctionCreated(ctx context.Context, auctionId uint64, auctioneer string, startPrice sdkmath.LegacyDec, sellingCoin sdk.Coin, payingCoinDenom string, vs []types.VestingSchedule, startTime, endTime time.Time) error {
 	has, _ := l.k.Auction.Has(ctx, auctionId)
-	return l.call(ctx, "AfterFixedPriceAuctionCreated", fmt.Sprintf("%d|%s|%s|%s|%s|%s|%d|%d", auctionId, canonAddr(auctioneer), startPrice, sellingCoin, payingCoinDenom, vsString(vs), startTime.UnixNano(), endTime.UnixNano()), fmt.Sprintf("stored=%v", has))
+	return l.call(ctx, "AfterFixedPriceAuctionCreated", fmt.Sprintf("%d|%s|%s|%s|%s|%s|%d|%d", auctionId, canonAddr(auctioneer), startPrice, sellingCoin, payingCoinDenom, vsString(vs), nsOf(startTime), nsOf(endTime)), fmt.Sprintf("stored=%v", has))
 }
 
 func (l *Listener) BeforeBatchAuctionCreated(ctx context.Context, auctioneer string, startPrice, minBidPrice sdkmath.LegacyDec, sellingCoin sdk.Coin, payingCoinDenom string, vs []types.VestingSchedule, maxExtendedRound uint32, extendedRoundRate sdkmath.LegacyDec, startTime, endTime time.Time) error {
 	pre := l.newAuctionStored(ctx)
-	return l.call(ctx, "BeforeBatchAuctionCreated", fmt.Sprintf("%s|%s|%s|%s|%s|%s|%d|%s|%d|%d", canonAddr(auctioneer), startPrice, minBidPrice, sellingCoin, payingCoinDenom, vsString(vs), maxExtendedRound, extendedRoundRate, startTime.UnixNano(), endTime.UnixNano()), pre)
+	return l.call(ctx, "BeforeBatchAuctionCreated", fmt.Sprintf("%s|%s|%s|%s|%s|%s|%d|%s|%d|%d", canonAddr(auctioneer), startPrice, minBidPrice, sellingCoin, payingCoinDenom, vsString(vs), maxExtendedRound, extendedRoundRate, nsOf(startTime), nsOf(endTime)), pre)
 }
 
 func (l *Listener) AfterBatchAuctionCreated(ctx context.Context, auctionId uint64, auctioneer string, startPrice, minBidPrice sdkmath.LegacyDec, sellingCoin sdk.Coin, payingCoinDenom string, vs []types.VestingSchedule, maxExtendedRound uint32, extendedRoundRate sdkmath.LegacyDec, startTime, endTime time.Time) error {
 	has, _ := l.k.Auction.Has(ctx, auctionId)
-	return l.call(ctx, "AfterBatchAuctionCreated", fmt.Sprintf("%d|%s|%s|%s|%s|%s|%s|%d|%s|%d|%d", auctionId, canonAddr(auctioneer), startPrice, minBidPrice, sellingCoin, payingCoinDenom, vsString(vs), maxExtendedRound, extendedRoundRate, startTime.UnixNano(), endTime.UnixNano()), fmt.Sprintf("stored=%v", has))
+	return l.call(ctx, "AfterBatchAuctionCreated", fmt.Sprintf("%d|%s|%s|%s|%s|%s|%s|%d|%s|%d|%d", auctionId, canonAddr(auctioneer), startPrice, minBidPrice, sellingCoin, payingCoinDenom, vsString(vs), maxExtendedRound, extendedRoundRate, nsOf(startTime), nsOf(endTime)), fmt.Sprintf("stored=%v", has))
 }
 
 func (l *Listener) BeforeAuctionCanceled(ctx context.Context, auctionId uint64, auctioneer string) error {
